@@ -106,15 +106,30 @@ class WfScenario(Scenario):
     def setup(self):
         env.reset(results=self.results, overrides=self.overrides,
                   scheduler=self.scheduler, n_sched=self.n_sched)
+        nsmap = (self.meta or {}).get('namespaces')
         if self.workbook:
             env.with_ctx(lambda: env.wb_service.create_workbook_v2(self.yaml))
+        elif nsmap:
+            # every workflow of the file is created in its own namespace
+            import yaml as _yaml
+            doc = _yaml.safe_load(self.yaml)
+            for wname, body in doc.items():
+                if wname == 'version':
+                    continue
+                one = _yaml.safe_dump({'version': '2.0', wname: body},
+                                      sort_keys=False)
+                for ns in nsmap.get(wname, ['']):
+                    env.with_ctx(lambda one=one, ns=ns:
+                                 env.wf_service.create_workflows(
+                                     one, namespace=ns))
         else:
             env.with_ctx(lambda: env.wf_service.create_workflows(self.yaml))
         env.W.clear_caches = self.clear_caches
         self.start()
 
     def start(self):
-        env.post('start_workflow', wf_identifier=self.wf, wf_namespace='',
+        env.post('start_workflow', wf_identifier=self.wf,
+                 wf_namespace=(self.meta or {}).get('root_namespace', ''),
                  wf_ex_id=None, wf_input=dict(self.wf_input),
                  description='', params=dict(self.params))
 
